@@ -280,6 +280,7 @@ def gen_case(r: Any, n: int | None = None) -> dict[str, Any]:
         "extra": extra,
         "id": r.choice(IDS),
         "out": r.choice(["arg", "arg", "config", "stdout"]),
+        "pre": r.choice(["absent", "absent", "longer", "longer", "shorter", "binary"]),
         "hsm": None,
         "ttl": r.choice([172800, 172800, 3600, 0]),
         "plan": {},
@@ -559,9 +560,22 @@ def build(case: dict[str, Any]) -> tuple[p11emu.World, Any, dict[str, Any]]:
     for p in (out_arg, out_cfg):
         if p.exists():
             p.unlink()
+    # what is at the output path BEFORE the export is part of the environment (a re-export after a key was retired writes a
+    # SHORTER document to the same path): absent / an older, longer export / a shorter file / a file of another kind
+    pre = case.get("pre", "absent")
+    pre_content: dict[str, bytes] = {}
+    if pre != "absent":
+        old_doc = b'<?xml version="1.0" encoding="UTF-8"?>\n<TrustAnchor id="OLD" source="http://data.iana.org/root-anchors/root-anchors.xml">\n<Zone>.</Zone>\n'
+        old_doc += b"".join(b'<KeyDigest id="Kold%d" validFrom="2010-07-15T00:00:00+00:00">\n<KeyTag>%d</KeyTag>\n<Algorithm>8</Algorithm>\n<DigestType>2</DigestType>\n<Digest>%s</Digest>\n</KeyDigest>\n' % (i, 19036 + i, b"AB" * 32) for i in range(40))
+        old_doc += b"</TrustAnchor>\n"
+        content = {"longer": old_doc, "shorter": b"<old/>\n", "binary": bytes(range(256)) * 64}[pre]
+        target = out_arg if case["out"] == "arg" else out_cfg if case["out"] == "config" else None
+        if target is not None:
+            target.write_bytes(content)
+            pre_content = {("out_arg" if target is out_arg else "out_cfg"): content}
     filenames = {"output_trustanchor": str(out_cfg)} if case["out"] == "config" else None
     cfg = C.make_config({"hsm0": {"module": "emu0", "pin": "1234"}, "hsm1": {"module": "emu1", "pin": 4321}}, ksk, {}, ksk_policy={"ttl": case["ttl"]}, filenames=filenames)
-    info = {"out_arg": out_arg, "out_cfg": out_cfg}
+    info = {"out_arg": out_arg, "out_cfg": out_cfg, "pre_content": pre_content}
     return world, cfg, info
 
 
@@ -706,6 +720,8 @@ def _run_case(case: dict[str, Any]) -> dict[str, Any]:
     for name in ("out_arg", "out_cfg"):
         p: Path = info[name]
         if p.exists():
+            if info["pre_content"].get(name) == p.read_bytes():
+                continue  # what was there before the run, untouched: nothing was written
             written[name] = p.read_bytes().decode("utf-8", "surrogateescape")
     printed = stdout.getvalue()
     doc = None
